@@ -52,5 +52,37 @@ CLAIMS.update({
         note=_NOTE),
 })
 
+CLAIMS.update({
+    "C01": dict(
+        text="Structural clauses decided for all 13 primitives: each class encodes under and only decodes from its own application tag number (truth table of the decode guard over all classes/numbers), "
+             "width/format/byte-order agreement of encode and decode, length guards, two's-complement sign extension and big-endian accumulation (expression tables), the 10+22 object-identifier split on both sides, "
+             "the BOOLEAN special case in both tag conversions, no mask reachable by an unrepresentable value (guard value-sets), injectivity of all ~90 enumerations and bit-name tables, and the shortest-form strip loops "
+             "(which (len, d0, d1) combinations delete the leading octet). Equality of arbitrary values after a round trip (floats, character sets) is a runtime quantity and is not claimed.",
+        technique="guard value-sets + finite-domain evaluation of codec expressions + table injectivity over the AST",
+        note=_NOTE),
+    "C02": dict(
+        text="Tag.encode / Tag.decode are extracted into per-branch symbolic layouts and compared with clause 20.2.1 for every class x tag number x length boundary (and with each other); buffer reads are shown bounded by their length guards, "
+             "every read of Tag.decode lies in the try that maps DecodingError to InvalidTag, the tag-list decoder consumes one tag per iteration, and open/close level counting (+1/-1, stop when negative, refuse imbalance) is decided per tag class on the loop paths. "
+             "List equality after a round trip for arbitrary octet strings is not claimed.",
+        technique="codec layout extraction (symbolic per-branch wire items) + finite-domain evaluation against the reference layout + guard value-sets",
+        note=_NOTE),
+    "C07": dict(
+        text="For each of the eight PDU types and every flag combination, with every header field varied over values that exercise each of its bits, the octets APCI.encode emits (extracted symbolically per branch) equal clause 20.1.2-20.1.9, "
+             "and APCI.decode restores exactly those fields from the reference octets and hands on the untouched payload; unknown types are refused on both sides; code tables equal the standard's and the encoders scan downward returning the first value <= capability; "
+             "the header field set is identical in __init__/update/debug contents.",
+        technique="codec layout extraction + finite-domain evaluation against the clause 20.1 reference + table/loop-shape rules",
+        note=_NOTE),
+    "C08": dict(
+        text="NPCI.encode/decode are extracted per branch and compared with clause 6.2.2 over destination kinds x source x message-type classes x flags; forbidden/truncated headers are shown to reach only DecodingError raises; "
+             "each of the twelve message bodies is checked by trace agreement (same order, widths, fields, loop structure, counted routing table with its length octets) and against clause 6.4 widths; the registry is complete and consistent.",
+        technique="codec layout extraction + encode/decode trace agreement + reference layout tables",
+        note=_NOTE),
+    "C09": dict(
+        text="BVLCI layout and both length checks (value-sets over declared length vs payload), symbolic octet count of every function's encoder equal to the length expression it declares (constructor and re-computation), "
+             "encode/decode trace agreement incl. table entries and the six-octet address width, pack/unpack_ip_addr format agreement, and the function registry against Annex J.2.",
+        technique="codec layout extraction + symbolic octet counting + trace agreement",
+        note=_NOTE),
+})
+
 _PENDING = "check not built yet in this round (static rules are designed in DESIGN.md section 3)"
 NOT_APPLICABLE = {("C%02d" % i): _PENDING for i in range(1, 21)}
